@@ -445,6 +445,9 @@ pub struct Heap {
   unmarked_module_references: HashSet<ModuleReference>,
   // invariant: 0 <= sweep_index < str_pointer_table.len()
   sweep_index: usize,
+  /// verification hook: log of GC-relevant API calls, drained by the harness
+  #[cfg(samlang_verif)]
+  pub verif_log: Vec<verif_hooks::HeapCall>,
 }
 
 impl Heap {
@@ -457,6 +460,8 @@ impl Heap {
       interned_module_reference: HashMap::new(),
       unmarked_module_references: HashSet::new(),
       sweep_index: 0,
+      #[cfg(samlang_verif)]
+      verif_log: Vec::new(),
     };
     heap.alloc_module_reference(Vec::new()); // Root
     let dummy_parts = vec![PStr::DUMMY_MODULE];
@@ -486,6 +491,8 @@ impl Heap {
   }
 
   fn alloc_str_internal(&mut self, str: &'static str) -> PStr {
+    #[cfg(samlang_verif)]
+    self.verif_log.push(verif_hooks::HeapCall::AllocStatic(str.to_string()));
     if let Some(p) = PStr::create_inline_opt(str) {
       p
     } else if let Some(id) = self.interned_static_str.get(&str) {
@@ -517,6 +524,8 @@ impl Heap {
 
   /// This function can only be called in compiler code.
   pub fn alloc_temp_str(&mut self) -> PStr {
+    #[cfg(samlang_verif)]
+    self.verif_log.push(verif_hooks::HeapCall::AllocTemp);
     // We use a more specialized implementation here,
     // since the generated strings are guaranteed to be globally unique.
     let id = self.str_pointer_table.len() as u32;
@@ -530,6 +539,8 @@ impl Heap {
   }
 
   pub fn alloc_string(&mut self, string: String) -> PStr {
+    #[cfg(samlang_verif)]
+    self.verif_log.push(verif_hooks::HeapCall::AllocString(string.clone()));
     match PStrPrivateRepr::from_string(string) {
       Ok(repr) => PStr(repr),
       Err(string) => {
@@ -579,6 +590,8 @@ impl Heap {
   }
 
   pub fn alloc_module_reference(&mut self, parts: Vec<PStr>) -> ModuleReference {
+    #[cfg(samlang_verif)]
+    self.verif_log.push(verif_hooks::HeapCall::AllocModuleRef(parts.clone()));
     if let Some(id) = self.interned_module_reference.get(parts.deref()) {
       *id
     } else {
@@ -639,6 +652,8 @@ impl Heap {
   ///
   /// Adding the full set of changed modules since the last GC is critical for the correctness of GC.
   pub fn add_unmarked_module_reference(&mut self, module_reference: ModuleReference) {
+    #[cfg(samlang_verif)]
+    self.verif_log.push(verif_hooks::HeapCall::AddUnmarked(module_reference.0));
     self.unmarked_module_references.insert(module_reference);
   }
 
@@ -649,6 +664,8 @@ impl Heap {
   /// It should be called at the end of one slice of incremental marking.
   pub fn pop_unmarked_module_reference(&mut self) -> Option<ModuleReference> {
     let item = self.unmarked_module_references.iter().next().copied()?;
+    #[cfg(samlang_verif)]
+    self.verif_log.push(verif_hooks::HeapCall::Pop(item.0));
     self.unmarked_module_references.remove(&item);
     Some(item)
   }
@@ -659,6 +676,8 @@ impl Heap {
   ///
   /// It should be called during incremental marking.
   pub fn mark(&mut self, p_str: PStr) {
+    #[cfg(samlang_verif)]
+    self.verif_log.push(verif_hooks::HeapCall::Mark(p_str));
     if let Some(id) = p_str.0.as_heap_id() {
       match &mut self.str_pointer_table[id as usize] {
         StringStoredInHeap::Permanent(_) | StringStoredInHeap::Deallocated(_) => {}
@@ -676,6 +695,8 @@ impl Heap {
   /// It should be called at the end of a GC round. Sweep is still incremental. The amount of work
   /// is controled by `work_unit`.
   pub fn sweep(&mut self, work_unit: usize) {
+    #[cfg(samlang_verif)]
+    self.verif_log.push(verif_hooks::HeapCall::Sweep(work_unit));
     if !self.unmarked_module_references.is_empty() {
       return;
     }
@@ -710,6 +731,35 @@ impl Heap {
 impl Default for Heap {
   fn default() -> Self {
     Self::new()
+  }
+}
+
+/// Verification hooks (compiled only with `--cfg samlang_verif`): a log of the heap API calls
+/// that matter for GC, so that the real call sequence of the language server can be replayed
+/// through the heap model.
+#[cfg(samlang_verif)]
+pub mod verif_hooks {
+  use super::{ModuleReference, PStr};
+
+  #[derive(Debug, Clone)]
+  pub enum HeapCall {
+    AllocString(String),
+    AllocStatic(String),
+    AllocTemp,
+    AllocModuleRef(Vec<PStr>),
+    AddUnmarked(usize),
+    Pop(usize),
+    Mark(PStr),
+    Sweep(usize),
+  }
+
+  pub fn module_reference_index(m: ModuleReference) -> usize {
+    m.0
+  }
+
+  /// `Ok(inline string bytes)` or `Err(slot id)`
+  pub fn pstr_repr(p: PStr) -> Result<Vec<u8>, u32> {
+    p.0.as_inline_str().map(|s| s.as_bytes().to_vec())
   }
 }
 
